@@ -1,6 +1,7 @@
 (* SpecAgreeTabP.v — the reader's symbol tables against the specification's symbol contexts: the tables that
-   arise without shared imports (the system table, then local symbols, possibly appended several times), and
-   the fields of a table struct as readLocalSymbolTable folds them against SpecBin's apply_lst. *)
+   arise without a catalog (the system table, placeholder imports, local symbols, possibly appended several
+   times), and the fields of a table struct / of an import struct as readLocalSymbolTable folds them, against
+   SpecBin's apply_lst / import_slots. *)
 From Coq Require Import String List NArith ZArith Bool Lia ZifyBool ZifyN ZifyNat.
 From IonV Require Import Base.Wire Base.Utf8 Bin.Bits Bin.BitsP Data.Ion Num.Float Bin.BitStream Bin.BinReader
   Bin.BitStreamP Bin.BitStreamNextP Bin.BinWriter Bin.SpecBin Bin.RoundTripBin Bin.RoundTripBinS Bin.BitEvalP
@@ -10,67 +11,248 @@ Open Scope N_scope.
 Ltac Zify.zify_post_hook ::= Z.div_mod_to_equations.
 
 Definition ist_text : text := s "$ion_symbol_table"%string.
-Definition loc_imp (l : list text) : imp := {| im_syms := l; im_maxid := N.of_nat (length l) |}.
-Definition TS (Ls : list (list text)) (L : list text) : rlst :=
-  LTab {| lt_imps := sys_imp :: map loc_imp Ls; lt_locals := L |}.
-Definition CX (Ls : list (list text)) (L : list text) : symctx := system_ctx ++ map Some (concat Ls ++ L).
+(* the imports of a table read without a catalog: earlier local symbols (after an append) or placeholders *)
+Inductive isg := IL (l : list text) | IG (m : N).
+Definition imp_of (g : isg) : imp :=
+  match g with IL l => {| im_syms := l; im_maxid := N.of_nat (length l) |} | IG m => {| im_syms := []; im_maxid := m |} end.
+Definition seg_of (g : isg) : seg := match g with IL l => Slots (map Some l) | IG m => Gap m end.
+Definition isz (g : isg) : N := match g with IL l => N.of_nat (length l) | IG m => m end.
+Definition isize (Is : list isg) : N := fold_right (fun g a => isz g + a) 0 Is.
+Definition loc_imp (l : list text) : imp := imp_of (IL l).
+Definition TS (Is : list isg) (L : list text) : rlst :=
+  LTab {| lt_imps := sys_imp :: map imp_of Is; lt_locals := L |}.
+Definition CX (Is : list isg) (L : list text) : symctx := system_ctx ++ map seg_of Is ++ [Slots (map Some L)].
 Definition INV (tab : rlst) (ctx : symctx) : Prop :=
-  (tab = LSys /\ ctx = system_ctx) \/ exists Ls L, tab = TS Ls L /\ ctx = CX Ls L.
-Definition SYS3 (ctx : symctx) : Prop := nth_error ctx 2 = Some (Some ist_text).
+  (tab = LSys /\ ctx = system_ctx) \/ exists Is L, tab = TS Is L /\ ctx = CX Is L.
+Definition SYS3 (ctx : symctx) : Prop := ctx_slot ctx 2 = Some (Some ist_text).
 
 Lemma inv_sys3 tab ctx : INV tab ctx -> SYS3 ctx.
-Proof. intros [[_ ->]|(Ls & L & _ & ->)]; reflexivity. Qed.
+Proof. intros [[_ ->]|(Is & L & _ & ->)]; reflexivity. Qed.
 
-Lemma max_import_loc Ls : forall a, a + N.of_nat (length (concat Ls)) < two64 ->
-  fold_left (fun a i => wrap64 (a + im_maxid i)) (map loc_imp Ls) a = a + N.of_nat (length (concat Ls)).
+Lemma seg_of_size g : seg_size (seg_of g) = isz g.
+Proof. destruct g; cbn [seg_of seg_size isz]; [rewrite map_length|]; reflexivity. Qed.
+Lemma ctx_size_app a b : ctx_size (a ++ b) = ctx_size a + ctx_size b.
+Proof. induction a as [|g a IH]; cbn [app ctx_size fold_right]; [reflexivity|]. fold (ctx_size (a ++ b)) (ctx_size a). lia. Qed.
+Lemma ctx_size_segs Is : ctx_size (map seg_of Is) = isize Is.
 Proof.
-  induction Ls as [|L1 Ls IH]; intros a Ha; cbn [map fold_left concat length]; [lia|].
-  cbn [concat] in Ha. rewrite app_length in *. change (im_maxid (loc_imp L1)) with (N.of_nat (length L1)). rewrite wrap_small by lia. rewrite IH by lia. lia.
+  induction Is as [|g Is IH]; [reflexivity|]. cbn [map ctx_size fold_right isize]. fold (ctx_size (map seg_of Is)) (isize Is).
+  rewrite seg_of_size, IH. reflexivity.
+Qed.
+Lemma ctx_size_CX Is L : ctx_size (CX Is L) = 9 + isize Is + N.of_nat (length L).
+Proof.
+  unfold CX. rewrite !ctx_size_app, ctx_size_segs. cbn [system_ctx ctx_size fold_right seg_size].
+  rewrite !map_length, system_len. lia.
+Qed.
+Lemma ctx_slot_app1 : forall a b i, i < ctx_size a -> ctx_slot (a ++ b) i = ctx_slot a i.
+Proof.
+  induction a as [|g a IH]; intros b i; cbn [app ctx_size fold_right ctx_slot]; [lia|]. fold (ctx_size a).
+  intros H. destruct (i <? seg_size g) eqn:E; [reflexivity|]. apply IH. lia.
+Qed.
+Lemma ctx_slot_app2 : forall a b i, ctx_size a <= i -> ctx_slot (a ++ b) i = ctx_slot b (i - ctx_size a).
+Proof.
+  induction a as [|g a IH]; intros b i; cbn [app ctx_size fold_right ctx_slot]; [intros _; f_equal; lia|]. fold (ctx_size a).
+  intros H. replace (i <? seg_size g) with false by lia. rewrite IH by lia. f_equal. lia.
 Qed.
 
-Lemma fii Ls : forall prev off id, im_maxid prev = N.of_nat (length (im_syms prev)) ->
-  off < id -> id <= off + N.of_nat (length (im_syms prev)) + N.of_nat (length (concat Ls)) ->
-  off + N.of_nat (length (im_syms prev)) + N.of_nat (length (concat Ls)) < two63 ->
-  find_in_imports prev (map loc_imp Ls) off (off + N.of_nat (length (im_syms prev))) id =
-  nth_error (im_syms prev ++ concat Ls) (N.to_nat (id - off - 1)).
+Lemma max_import_segs Is : forall a, a + isize Is < two64 ->
+  fold_left (fun a i => wrap64 (a + im_maxid i)) (map imp_of Is) a = a + isize Is.
 Proof.
-  induction Ls as [|L1 Ls IH]; intros prev off id Hm Hlo Hhi Hsz; cbn [map find_in_imports concat].
-  - cbn [concat length] in Hhi, Hsz. rewrite app_nil_r. rewrite wrap_sub by (unfold two63, two64 in *; lia).
-    unfold imp_find_by_id. replace ((id - off =? 0) || (N.of_nat (length (im_syms prev)) <? id - off)) with false by lia.
-    reflexivity.
-  - cbn [concat] in Hhi, Hsz. rewrite app_length in Hhi, Hsz. destruct (id <=? off + N.of_nat (length (im_syms prev))) eqn:E.
-    + rewrite wrap_sub by (unfold two63, two64 in *; lia).
-      unfold imp_find_by_id. replace ((id - off =? 0) || (N.of_nat (length (im_syms prev)) <? id - off)) with false by lia.
-      rewrite nth_error_app1 by lia. reflexivity.
-    + cbn [loc_imp im_maxid]. rewrite wrap_small by (unfold two63, two64 in *; lia).
-      pose proof (IH (loc_imp L1) (off + N.of_nat (length (im_syms prev))) id eq_refl) as Q. cbn [loc_imp im_syms] in Q.
-      rewrite Q by lia. rewrite (nth_error_app2 (im_syms prev)) by lia. f_equal. lia.
+  induction Is as [|g Is IH]; intros a Ha; cbn [map fold_left isize fold_right] in *; [lia|]. fold (isize Is) in *.
+  replace (im_maxid (imp_of g)) with (isz g) by (destruct g; reflexivity).
+  rewrite wrap_small by lia. rewrite IH by lia. lia.
 Qed.
 
-Lemma inv_tc tab ctx : INV tab ctx -> N.of_nat (length ctx) < two63 -> TC tab ctx.
+Definition txt (o : option (option text)) : option text := match o with Some (Some t) => Some t | _ => None end.
+
+Lemma imp_find_seg g k : 1 <= k -> k <= isz g -> imp_find_by_id (imp_of g) k = txt (ctx_slot [seg_of g] (k - 1)).
 Proof.
-  intros [[-> ->]|(Ls & L & -> & ->)] Hsz; [apply TC_sys|].
-  unfold CX, system_ctx in *. rewrite <- map_app in *. rewrite map_length, !app_length, system_len in Hsz.
-  assert (Emx : max_import_id (sys_imp :: map loc_imp Ls) = 9 + N.of_nat (length (concat Ls))).
+  intros H1 H2. unfold imp_find_by_id. cbn [ctx_slot]. rewrite seg_of_size. replace (k - 1 <? isz g) with true by lia.
+  destruct g as [l|m]; cbn [imp_of im_syms seg_of isz] in *.
+  - replace ((k =? 0) || (N.of_nat (length l) <? k)) with false by lia. rewrite nth_error_map.
+    destruct (nth_error l (N.to_nat (k - 1))); reflexivity.
+  - cbn [length]. replace ((k =? 0) || (N.of_nat 0 <? k)) with true by lia. reflexivity.
+Qed.
+
+Lemma fii Is : forall p off id, off < id -> id <= off + isz p + isize Is -> off + isz p + isize Is < two63 ->
+  find_in_imports (imp_of p) (map imp_of Is) off (off + isz p) id = txt (ctx_slot (map seg_of (p :: Is)) (id - off - 1)).
+Proof.
+  induction Is as [|g Is IH]; intros p off id Hlo Hhi Hsz; cbn [map find_in_imports isize fold_right] in *.
+  - rewrite wrap_sub by (unfold two63, two64 in *; lia). rewrite imp_find_seg by lia. reflexivity.
+  - fold (isize Is) in *. destruct (id <=? off + isz p) eqn:E.
+    + rewrite wrap_sub by (unfold two63, two64 in *; lia). rewrite imp_find_seg by lia.
+      cbn [ctx_slot]. rewrite seg_of_size. replace (id - off - 1 <? isz p) with true by lia.
+      reflexivity.
+    + replace (im_maxid (imp_of g)) with (isz g) by (destruct g; reflexivity).
+      rewrite wrap_small by (unfold two63, two64 in *; lia).
+      rewrite (IH g (off + isz p) id) by lia.
+      cbn [map ctx_slot]. rewrite (seg_of_size p). replace (id - off - 1 <? isz p) with false by lia.
+      replace (id - (off + isz p) - 1) with (id - off - 1 - isz p) by lia. reflexivity.
+Qed.
+
+Lemma inv_tc tab ctx : INV tab ctx -> ctx_size ctx < two63 -> TC tab ctx.
+Proof.
+  intros [[-> ->]|(Is & L & -> & ->)] Hsz; [apply TC_sys|].
+  pose proof (ctx_size_CX Is L) as Esz. rewrite Esz in Hsz.
+  assert (Emx : max_import_id (sys_imp :: map imp_of Is) = 9 + isize Is).
   { unfold max_import_id. cbn [fold_left]. change (wrap64 (0 + im_maxid sys_imp)) with 9.
-    apply max_import_loc. unfold two63, two64 in *. lia. }
-  split; [rewrite map_length, !app_length, system_len; exact Hsz|]. split.
-  - unfold TS, lst_max_id. cbn [lt_imps lt_locals]. rewrite Emx, wrap_small by (unfold two63, two64 in *; lia).
-    rewrite map_length, !app_length, system_len. lia.
+    apply max_import_segs. unfold two63, two64 in *. lia. }
+  split; [rewrite Esz; exact Hsz|]. split.
+  - unfold TS, lst_max_id. cbn [lt_imps lt_locals]. rewrite Emx, wrap_small by (unfold two63, two64 in *; lia). lia.
   - intros sid. unfold TS, lst_find_by_id. cbn [lt_imps lt_locals]. rewrite Emx.
-    destruct (sid =? 0) eqn:E0; [reflexivity|]. rewrite nth_error_map.
-    destruct (sid <=? 9 + N.of_nat (length (concat Ls))) eqn:E1.
-    + change (wrap64 (0 + im_maxid sys_imp)) with (0 + N.of_nat (length (im_syms sys_imp))).
-      rewrite (fii Ls sys_imp 0 sid eq_refl) by (cbn [sys_imp im_syms]; rewrite ?system_len; unfold two63 in *; lia).
-      cbn [sys_imp im_syms]. rewrite app_assoc, (nth_error_app1 (system_symbols ++ concat Ls) L) by (rewrite app_length, system_len; lia).
-      replace (N.to_nat (sid - 0 - 1)) with (N.to_nat (sid - 1)) by lia.
-      destruct (nth_error (system_symbols ++ concat Ls) (N.to_nat (sid - 1))); reflexivity.
-    + destruct (sid - (9 + N.of_nat (length (concat Ls))) - 1 <? N.of_nat (length L)) eqn:E2.
-      * rewrite app_assoc, (nth_error_app2 (system_symbols ++ concat Ls) L) by (rewrite app_length, system_len; lia). rewrite app_length, system_len.
-        replace (N.to_nat (sid - 1) - (9 + length (concat Ls)))%nat with (N.to_nat (sid - (9 + N.of_nat (length (concat Ls))) - 1)) by lia.
-        destruct (nth_error L _); reflexivity.
-      * replace (nth_error (system_symbols ++ concat Ls ++ L) (N.to_nat (sid - 1))) with (@None text); [reflexivity|].
-        symmetry. apply nth_error_None. rewrite !app_length, system_len. lia.
+    destruct (sid =? 0) eqn:E0; [reflexivity|].
+    assert (Esys : ctx_size (system_ctx ++ map seg_of Is) = 9 + isize Is).
+    { rewrite ctx_size_app, ctx_size_segs. reflexivity. }
+    unfold CX. rewrite app_assoc.
+    destruct (sid <=? 9 + isize Is) eqn:E1.
+    + change sys_imp with (imp_of (IL system_symbols)). change (wrap64 (0 + im_maxid (imp_of (IL system_symbols)))) with (0 + isz (IL system_symbols)).
+      rewrite (fii Is (IL system_symbols) 0 sid) by (cbn [isz]; rewrite ?system_len; unfold two63 in *; lia).
+      rewrite ctx_slot_app1 by (rewrite Esys; lia). unfold txt. replace (sid - 0 - 1) with (sid - 1) by lia. reflexivity.
+    + rewrite ctx_slot_app2 by (rewrite Esys; lia). rewrite Esys. cbn [ctx_slot seg_size]. rewrite map_length.
+      replace (sid - 1 - (9 + isize Is)) with (sid - (9 + isize Is) - 1) by lia.
+      destruct (sid - (9 + isize Is) - 1 <? N.of_nat (length L)) eqn:E2; [|reflexivity].
+      rewrite nth_error_map. destruct (nth_error L _); reflexivity.
+Qed.
+
+(* ---- one import struct, as the reader folds its fields ----------------------------------------------------------------------- *)
+Definition int32 (z : Z) : bool := (-2147483648 <=? z)%Z && (z <=? 2147483647)%Z.
+Definition int64 (z : Z) : bool := (-9223372036854775808 <=? z)%Z && (z <=? 9223372036854775807)%Z.
+Fixpoint rd_fold (fs : list (symv * value)) (d : impdecl) : option impdecl :=
+  match fs with
+  | [] => Some d
+  | (SymSid _, _) :: _ => None
+  | (SymText t, v) :: r =>
+    if list_eqb t (s "name"%string) then
+      match strip_ann v with
+      | VString nm => rd_fold r {| id_name := nm; id_version := id_version d; id_maxid := id_maxid d |}
+      | _ => rd_fold r d
+      end
+    else if list_eqb t (s "version"%string) then
+      match strip_ann v with
+      | VInt z => if int32 z then rd_fold r {| id_name := id_name d; id_version := z; id_maxid := id_maxid d |} else None
+      | _ => rd_fold r d
+      end
+    else if list_eqb t (s "max_id"%string) then
+      match strip_ann v with
+      | VInt z => if int64 z then rd_fold r {| id_name := id_name d; id_version := id_version d; id_maxid := z |} else None
+      | VNull ty => if ty =? TInt then None else rd_fold r d
+      | _ => rd_fold r d
+      end
+    else rd_fold r d
+  end.
+Definition d0 : impdecl := {| id_name := []; id_version := (-1)%Z; id_maxid := (-1)%Z |}.
+(* None = error; Some None = not an import / ignored *)
+Definition rd_import (x : value) : option (option imp) :=
+  match x with
+  | VStruct fs =>
+    match rd_fold fs d0 with
+    | None => None
+    | Some d =>
+      if list_eqb (id_name d) [] || list_eqb (id_name d) (s "$ion"%string) then Some None
+      else if (id_maxid d <? 0)%Z then None
+      else Some (Some {| im_syms := []; im_maxid := Z.to_N (id_maxid d) |})
+    end
+  | _ => Some None
+  end.
+Fixpoint rd_imports (es : list value) (acc : list imp) : option (list imp) :=
+  match es with
+  | [] => Some acc
+  | el :: r => match rd_import (strip_ann el) with
+               | None => None
+               | Some None => rd_imports r acc
+               | Some (Some i) => rd_imports r (acc ++ [i])
+               end
+  end.
+
+Lemma find_none fs name : count_field fs name = 0%nat -> find_field fs name = None.
+Proof.
+  induction fs as [|[y' v'] fs IH]; [reflexivity|]. unfold count_field. cbn [filter fst find_field].
+  destruct (field_is y' name); [discriminate|exact IH].
+Qed.
+
+Lemma rd_fold_find : forall fs d, names_known fs = true ->
+  (count_field fs "name" <= 1)%nat -> (count_field fs "version" <= 1)%nat -> (count_field fs "max_id" <= 1)%nat ->
+  int_within (find_field fs "version") (-2147483648) 2147483647 = true ->
+  int_within (find_field fs "max_id") (-9223372036854775808) 9223372036854775807 = true ->
+  match option_map strip_ann (find_field fs "max_id") with Some (VNull t) => t =? TInt | _ => false end = false ->
+  exists d', rd_fold fs d = Some d' /\
+    id_name d' = match option_map strip_ann (find_field fs "name") with Some (VString nm) => nm | _ => id_name d end /\
+    id_maxid d' = match option_map strip_ann (find_field fs "max_id") with Some (VInt z) => z | _ => id_maxid d end.
+Proof.
+  induction fs as [|[y v] fs IH]; intros d Hn Hc1 Hc2 Hc3 Hv Hm Hnl; [exists d; auto|].
+  unfold names_known in Hn. cbn [forallb fst] in Hn. destruct y as [t|m]; [|discriminate]. fold (names_known fs) in Hn.
+  unfold count_field in Hc1, Hc2, Hc3. cbn [filter fst field_is] in Hc1, Hc2, Hc3.
+  cbn [rd_fold find_field field_is] in *.
+  destruct (list_eqb t (s "name"%string)) eqn:E1.
+  - assert (E2 : list_eqb t (s "version"%string) = false) by (rewrite (list_eqb_true _ _ E1); reflexivity).
+    assert (E3 : list_eqb t (s "max_id"%string) = false) by (rewrite (list_eqb_true _ _ E1); reflexivity).
+    rewrite E2, E3 in *. cbn [length] in Hc1.
+    fold (count_field fs "name") in Hc1. fold (count_field fs "version") in Hc2. fold (count_field fs "max_id") in Hc3.
+    assert (Hno : find_field fs "name" = None) by (apply find_none; lia).
+    cbn [option_map].
+    destruct (strip_ann v); try solve [destruct (IH d Hn ltac:(lia) Hc2 Hc3 Hv Hm Hnl) as (d' & Q1 & Q2 & Q3); exists d';
+                                 rewrite Hno in Q2; cbn [option_map] in Q2; auto].
+    destruct (IH {| id_name := t0; id_version := id_version d; id_maxid := id_maxid d |} Hn ltac:(lia) Hc2 Hc3 Hv Hm Hnl) as (d' & Q1 & Q2 & Q3).
+    exists d'. rewrite Hno in Q2. cbn [option_map id_name id_maxid] in Q2, Q3. auto.
+  - destruct (list_eqb t (s "version"%string)) eqn:E2.
+    + assert (E3 : list_eqb t (s "max_id"%string) = false) by (rewrite (list_eqb_true _ _ E2); reflexivity).
+      rewrite E3 in *. cbn [length] in Hc2.
+      fold (count_field fs "name") in Hc1. fold (count_field fs "version") in Hc2. fold (count_field fs "max_id") in Hc3.
+      assert (Hno : find_field fs "version" = None) by (apply find_none; lia).
+      assert (Hv' : int_within (find_field fs "version") (-2147483648) 2147483647 = true) by (rewrite Hno; reflexivity).
+      unfold int_within in Hv. cbn [option_map] in Hv.
+      destruct (strip_ann v); try solve [apply (IH d Hn Hc1 ltac:(lia) Hc3 Hv' Hm Hnl)].
+      unfold int32. rewrite Hv.
+      destruct (IH {| id_name := id_name d; id_version := z; id_maxid := id_maxid d |} Hn Hc1 ltac:(lia) Hc3 Hv' Hm Hnl) as (d' & Q1 & Q2 & Q3).
+      exists d'. auto.
+    + destruct (list_eqb t (s "max_id"%string)) eqn:E3.
+      * cbn [length] in Hc3.
+        fold (count_field fs "name") in Hc1. fold (count_field fs "version") in Hc2. fold (count_field fs "max_id") in Hc3.
+        assert (Hno : find_field fs "max_id" = None) by (apply find_none; lia).
+        assert (Hm' : int_within (find_field fs "max_id") (-9223372036854775808) 9223372036854775807 = true) by (rewrite Hno; reflexivity).
+        assert (Hnl' : match option_map strip_ann (find_field fs "max_id") with Some (VNull t) => t =? TInt | _ => false end = false)
+          by (rewrite Hno; reflexivity).
+        unfold int_within in Hm. cbn [option_map] in Hm, Hnl |- *.
+        destruct (strip_ann v); try solve [destruct (IH d Hn Hc1 Hc2 ltac:(lia) Hv Hm' Hnl') as (d' & Q1 & Q2 & Q3); exists d';
+                                     rewrite Hno in Q3; cbn [option_map] in Q3; auto].
+        -- rewrite Hnl. destruct (IH d Hn Hc1 Hc2 ltac:(lia) Hv Hm' Hnl') as (d' & Q1 & Q2 & Q3). exists d'.
+           rewrite Hno in Q3; cbn [option_map] in Q3; auto.
+        -- unfold int64. rewrite Hm.
+           destruct (IH {| id_name := id_name d; id_version := id_version d; id_maxid := z |} Hn Hc1 Hc2 ltac:(lia) Hv Hm' Hnl') as (d' & Q1 & Q2 & Q3).
+           exists d'. rewrite Hno in Q3. cbn [option_map id_name id_maxid] in Q2, Q3. auto.
+      * fold (count_field fs "name") in Hc1. fold (count_field fs "version") in Hc2. fold (count_field fs "max_id") in Hc3.
+        apply IH; assumption.
+Qed.
+
+(* the reader's import against SpecBin's, for an import struct within the limits *)
+Lemma rd_import_slots el sl : import_ok el = true -> import_slots el = Some sl ->
+  (rd_import (strip_ann el) = Some None /\ sl = []) \/
+  (exists m, rd_import (strip_ann el) = Some (Some (imp_of (IG m))) /\ sl = [Gap m]).
+Proof.
+  unfold import_ok, import_slots. destruct (strip_ann el) eqn:Ex; try (intros _ H; inversion H; left; split; reflexivity).
+  intros Hok. apply andb_prop in Hok. destruct Hok as [Hok Hm]. apply andb_prop in Hok. destruct Hok as [Hok Hv].
+  apply andb_prop in Hok. destruct Hok as [Hok Hc3]. apply andb_prop in Hok. destruct Hok as [Hok Hc2].
+  apply andb_prop in Hok. destruct Hok as [Hn Hc1]. cbv zeta.
+  destruct (match option_map strip_ann (find_field l "max_id") with Some (VNull t) => t =? TInt | _ => false end) eqn:Hnl; [discriminate|].
+  destruct (rd_fold_find l d0 Hn ltac:(lia) ltac:(lia) ltac:(lia) Hv Hm Hnl) as (d' & Q1 & Q2 & Q3).
+  cbn [rd_import]. rewrite Q1, Q2. cbn [d0 id_name id_maxid] in *.
+  rewrite (orb_comm (list_eqb _ [])).
+  destruct (list_eqb _ (s "$ion"%string) || list_eqb _ []); [intros H; inversion H; left; split; reflexivity|].
+  rewrite Q3. destruct (option_map strip_ann (find_field l "max_id")) as [mv|]; [|discriminate].
+  destruct mv; try discriminate. destruct (z <? 0)%Z; [discriminate|]. intros H; inversion H. right. exists (Z.to_N z). split; reflexivity.
+Qed.
+
+Lemma rd_imports_slots : forall es sl acc, forallb import_ok es = true -> imports_slots es = Some sl ->
+  exists ms, rd_imports es acc = Some (acc ++ map imp_of (map IG ms)) /\ sl = map seg_of (map IG ms).
+Proof.
+  induction es as [|el es IH]; intros sl acc Hok Hs; cbn [forallb imports_slots rd_imports] in *.
+  - inversion Hs. exists []. cbn. rewrite app_nil_r. auto.
+  - apply andb_prop in Hok. destruct Hok as [Hel Hes].
+    destruct (import_slots el) as [a|] eqn:Ea; [|discriminate]. destruct (imports_slots es) as [b|] eqn:Eb; [|discriminate].
+    inversion Hs; subst sl.
+    destruct (rd_import_slots el a Hel Ea) as [[Q ->]|(m & Q & ->)]; rewrite Q.
+    + destruct (IH b acc Hes eq_refl) as (ms & R1 & R2). exists ms. auto.
+    + destruct (IH b (acc ++ [imp_of (IG m)]) Hes eq_refl) as (ms & R1 & R2). exists (m :: ms).
+      rewrite R1, R2. cbn [map app]. rewrite <- app_assoc. auto.
 Qed.
 
 (* ---- the fields of the table struct, as the reader folds them ---------------------------------------------------------------- *)
@@ -78,10 +260,11 @@ Definition sym_text (x : value) : text := match strip_ann x with VString t => t 
 Definition syms_of (x : value) : list text := match x with VList es => map sym_text es | _ => [] end.
 Definition append_imps (cur : rlst) : list imp :=
   match cur with LSys => [] | LTab t0 => lt_imps t0 ++ [loc_imp (lt_locals t0)] end.
-Definition imps_of (cur : rlst) (x : value) : list imp :=
+Definition imps_of (cur : rlst) (x : value) : option (list imp) :=
   match x with
-  | VSymbol (SymText t) => if list_eqb t ist_text then append_imps cur else []
-  | _ => []
+  | VSymbol (SymText t) => if list_eqb t ist_text then Some (append_imps cur) else Some []
+  | VList es => rd_imports es []
+  | _ => Some []
   end.
 Fixpoint lst_fold (cur : rlst) (fs : list (symv * value)) (imps : list imp) (syms : list text) (fi fsy : bool)
   : option (list imp * list text) :=
@@ -90,38 +273,30 @@ Fixpoint lst_fold (cur : rlst) (fs : list (symv * value)) (imps : list imp) (sym
   | (SymSid _, _) :: _ => None
   | (SymText t, v) :: r =>
     if list_eqb t (s "symbols"%string) then (if fsy then None else lst_fold cur r imps (syms_of (strip_ann v)) fi true)
-    else if list_eqb t (s "imports"%string) then (if fi then None else lst_fold cur r (imps_of cur (strip_ann v)) syms true fsy)
+    else if list_eqb t (s "imports"%string) then
+      (if fi then None else match imps_of cur (strip_ann v) with Some im => lst_fold cur r im syms true fsy | None => None end)
     else lst_fold cur r imps syms fi fsy
   end.
-Definition no_struct (el : value) : Prop := match strip_ann el with VStruct _ => False | _ => True end.
-Definition imp_lists_ok (fs : list (symv * value)) : Prop :=
-  forall y v es, In (y, v) fs -> field_is y "imports" = true -> strip_ann v = VList es -> Forall no_struct es.
 
 Lemma lst_fold_find cur : forall fs imps syms (fi fsy : bool), names_known fs = true ->
   (count_field fs "symbols" + (if fsy then 1 else 0) <= 1)%nat -> (count_field fs "imports" + (if fi then 1 else 0) <= 1)%nat ->
+  forall im, match find_field fs "imports" with Some v => imps_of cur (strip_ann v) | None => Some imps end = Some im ->
   lst_fold cur fs imps syms fi fsy =
-  Some (match find_field fs "imports" with Some v => imps_of cur (strip_ann v) | None => imps end,
-        match find_field fs "symbols" with Some v => syms_of (strip_ann v) | None => syms end).
+  Some (im, match find_field fs "symbols" with Some v => syms_of (strip_ann v) | None => syms end).
 Proof.
-  induction fs as [|[y v] fs IH]; intros imps syms fi fsy Hn Hcs Hci; [reflexivity|].
+  induction fs as [|[y v] fs IH]; intros imps syms fi fsy Hn Hcs Hci im Him; [cbn in *; inversion Him; reflexivity|].
   unfold names_known in Hn. cbn [forallb fst] in Hn. destruct y as [t|m]; [|discriminate]. fold (names_known fs) in Hn.
-  unfold count_field in Hcs, Hci. cbn [filter fst field_is] in Hcs, Hci. cbn [lst_fold find_field field_is].
+  unfold count_field in Hcs, Hci. cbn [filter fst field_is] in Hcs, Hci. cbn [lst_fold find_field field_is] in *.
   destruct (list_eqb t (s "symbols"%string)) eqn:Es.
   - assert (Ei : list_eqb t (s "imports"%string) = false).
     { rewrite (list_eqb_true _ _ Es). reflexivity. }
     rewrite Ei in *. cbn [length] in Hcs. destruct fsy; [lia|]. fold (count_field fs "symbols") in Hcs. fold (count_field fs "imports") in Hci.
-    rewrite (IH imps (syms_of (strip_ann v)) fi true Hn) by (cbn; lia).
-    assert (Hno : find_field fs "symbols" = None).
-    { assert (Hc0 : count_field fs "symbols" = 0%nat) by lia. clear - Hc0. induction fs as [|[y' v'] fs IH]; [reflexivity|].
-      unfold count_field in Hc0. cbn [filter fst] in Hc0. cbn [find_field]. destruct (field_is y' "symbols"); [discriminate|apply IH; exact Hc0]. }
-    rewrite Hno. reflexivity.
+    rewrite (IH imps (syms_of (strip_ann v)) fi true Hn ltac:(cbn; lia) ltac:(cbn; lia) im Him).
+    rewrite (find_none fs "symbols") by lia. reflexivity.
   - destruct (list_eqb t (s "imports"%string)) eqn:Ei.
     + cbn [length] in Hci. destruct fi; [lia|]. fold (count_field fs "symbols") in Hcs. fold (count_field fs "imports") in Hci.
-      rewrite (IH (imps_of cur (strip_ann v)) syms true fsy Hn) by (cbn; lia).
-      assert (Hno : find_field fs "imports" = None).
-      { assert (Hc0 : count_field fs "imports" = 0%nat) by lia. clear - Hc0. induction fs as [|[y' v'] fs IH]; [reflexivity|].
-        unfold count_field in Hc0. cbn [filter fst] in Hc0. cbn [find_field]. destruct (field_is y' "imports"); [discriminate|apply IH; exact Hc0]. }
-      rewrite Hno. reflexivity.
+      rewrite Him. apply (IH im syms true fsy Hn ltac:(cbn; lia) ltac:(cbn; lia)).
+      rewrite (find_none fs "imports") by lia. reflexivity.
     + fold (count_field fs "symbols") in Hcs. fold (count_field fs "imports") in Hci. apply IH; assumption.
 Qed.
 
@@ -130,61 +305,48 @@ Definition new_tab (imps : list imp) (syms : list text) : rlst :=
   let starts := match imps with i :: _ => list_eqb (hd [] (im_syms i)) (s "$ion"%string) && (im_maxid i =? 9) | [] => false end in
   LTab {| lt_imps := process_imports imps starts; lt_locals := syms |}.
 
-Lemma find_field_in fs name v : find_field fs name = Some v -> exists y, In (y, v) fs /\ field_is y name = true.
-Proof.
-  induction fs as [|[y' v'] fs IH]; cbn [find_field]; [discriminate|]. destruct (field_is y' name) eqn:E.
-  - intros H. inversion H; subst. exists y'. split; [left; reflexivity|exact E].
-  - intros H. destruct (IH H) as (y & Hin & Hy). exists y. split; [right; exact Hin|exact Hy].
-Qed.
+Lemma new_tab_ph ms syms : new_tab (map imp_of (map IG ms)) syms = TS (map IG ms) syms.
+Proof. destruct ms; reflexivity. Qed.
 
-Lemma lst_ok_new tab ctx fs : INV tab ctx -> lst_ok ctx fs = true ->
+Lemma lst_ok_new tab ctx fs ctx' : INV tab ctx -> apply_lst ctx fs = Some ctx' -> lst_ok fs ctx' = true ->
   exists imps syms, lst_fold tab fs [] [] false false = Some (imps, syms) /\
-                    INV (new_tab imps syms) (apply_lst ctx fs) /\ N.of_nat (length (apply_lst ctx fs)) < two63 /\
-                    imp_lists_ok fs.
+                    INV (new_tab imps syms) ctx' /\ ctx_size ctx' < two63.
 Proof.
-  intros Hinv Hok. unfold lst_ok in Hok.
+  intros Hinv Hap Hok. unfold lst_ok in Hok.
   apply andb_prop in Hok. destruct Hok as [Hok Hsz]. apply andb_prop in Hok. destruct Hok as [Hok Himp].
-  apply andb_prop in Hok. destruct Hok as [Hok Hsym]. apply andb_prop in Hok. destruct Hok as [Hok Hci].
-  apply andb_prop in Hok. destruct Hok as [Hn Hcs].
-  eexists _, _. split; [apply lst_fold_find; [exact Hn|cbn; lia|cbn; lia]|]. split; [|split; [lia|]].
-  - (* the new table against apply_lst *)
-    assert (Hsy : lst_symbols (find_field fs "symbols") =
-                  map Some (match find_field fs "symbols" with Some v => syms_of (strip_ann v) | None => [] end)).
-    { unfold lst_symbols, symbols_ok in *. destruct (find_field fs "symbols") as [v|]; [|reflexivity]. cbn [option_map] in *.
-      destruct (strip_ann v); try reflexivity. cbn [syms_of]. rewrite map_map. apply map_ext_in. intros x Hx.
-      rewrite forallb_forall in Hsym. specialize (Hsym x Hx). unfold sym_text. destruct (strip_ann x); try discriminate. reflexivity. }
-    set (syms := match find_field fs "symbols" with Some v => syms_of (strip_ann v) | None => [] end) in *.
-    assert (Fresh : INV (new_tab [] syms) (system_ctx ++ map Some syms)).
-    { right. exists [], syms. split; reflexivity. }
-    unfold apply_lst. rewrite Hsy.
-    destruct (find_field fs "imports") as [v|] eqn:Ef; cbn [option_map]; [|exact Fresh].
-    destruct (strip_ann v) eqn:Ev; cbn [imps_of]; try exact Fresh.
-    + (* a symbol *)
-      destruct y as [t|m]; [|exact Fresh]. fold ist_text. destruct (list_eqb t ist_text); [|exact Fresh].
-      destruct Hinv as [[-> ->]|(Ls & L & -> & ->)]; [exact Fresh|].
-      right. exists (Ls ++ [L]), syms. split.
-      * unfold new_tab, TS, append_imps. cbn [lt_imps lt_locals app]. unfold process_imports. cbn [hd sys_imp im_syms im_maxid].
+  apply andb_prop in Hok. destruct Hok as [Hn Hsym].
+  unfold apply_lst in Hap.
+  destruct ((1 <? count_field fs "symbols")%nat || (1 <? count_field fs "imports")%nat) eqn:Ec; [discriminate|].
+  assert (Hsy : lst_symbols (find_field fs "symbols") =
+                map Some (match find_field fs "symbols" with Some v => syms_of (strip_ann v) | None => [] end)).
+  { unfold lst_symbols, symbols_ok in *. destruct (find_field fs "symbols") as [v|]; [|reflexivity]. cbn [option_map] in *.
+    destruct (strip_ann v); try reflexivity. cbn [syms_of]. rewrite map_map. apply map_ext_in. intros x Hx.
+    rewrite forallb_forall in Hsym. specialize (Hsym x Hx). unfold sym_text. destruct (strip_ann x); try discriminate. reflexivity. }
+  set (syms := match find_field fs "symbols" with Some v => syms_of (strip_ann v) | None => [] end) in *.
+  rewrite Hsy in Hap.
+  assert (Fresh : forall ms, INV (new_tab (map imp_of (map IG ms)) syms) (system_ctx ++ map seg_of (map IG ms) ++ [Slots (map Some syms)])).
+  { intros ms. right. exists (map IG ms), syms. split; [apply new_tab_ph|reflexivity]. }
+  assert (Goal : exists im, match find_field fs "imports" with Some v => imps_of tab (strip_ann v) | None => Some [] end = Some im /\
+                            INV (new_tab im syms) ctx').
+  { destruct (find_field fs "imports") as [v|] eqn:Ef; cbn [option_map] in Hap;
+      [|inversion Hap; exists []; split; [reflexivity|exact (Fresh [])]].
+    destruct (strip_ann v) eqn:Ev; cbn [imps_of];
+      try (inversion Hap; exists []; split; [reflexivity|exact (Fresh [])]).
+    - (* a symbol *)
+      destruct y as [t|m]; [|inversion Hap; exists []; split; [reflexivity|exact (Fresh [])]].
+      fold ist_text in Hap |- *. destruct (list_eqb t ist_text); [|inversion Hap; exists []; split; [reflexivity|exact (Fresh [])]].
+      inversion Hap; subst ctx'. eexists. split; [reflexivity|].
+      destruct Hinv as [[-> ->]|(Is & L & -> & ->)]; [exact (Fresh [])|].
+      right. exists (Is ++ [IL L]), syms. split.
+      + unfold new_tab, TS, append_imps. cbn [lt_imps lt_locals app]. unfold process_imports. cbn [hd sys_imp im_syms im_maxid].
         change (list_eqb (hd [] system_symbols) (s "$ion"%string) && (9 =? 9)) with true. cbv iota.
         rewrite map_app. reflexivity.
-      * unfold CX. rewrite concat_app. cbn [concat]. rewrite app_nil_r, <- !app_assoc, !map_app, <- !app_assoc. reflexivity.
-    + (* a list without import structs *)
+      + unfold CX. rewrite map_app, <- !app_assoc. reflexivity.
+    - (* a list of import declarations *)
       unfold imports_ok in Himp. cbn [option_map] in Himp. rewrite Ev in Himp.
-      replace (flat_map import_slots l) with (@nil (option text)); [exact Fresh|].
-      symmetry. clear - Himp. induction l as [|x l IH]; [reflexivity|]. cbn [forallb flat_map] in *.
-      apply andb_prop in Himp. destruct Himp as [Hx Hl]. rewrite <- (IH Hl).
-      unfold import_slots. destruct (strip_ann x); try reflexivity. discriminate.
-  - intros y v es Hin Hy Ees. unfold imports_ok in Himp.
-    assert (Ef : find_field fs "imports" = Some v).
-    { assert (Hc1 : (count_field fs "imports" <= 1)%nat) by lia. clear - Hin Hy Hc1.
-      induction fs as [|[y' v'] fs IH]; [destruct Hin|]. unfold count_field in Hc1. cbn [filter fst] in Hc1. cbn [find_field].
-      destruct Hin as [Q|Hin].
-      - inversion Q; subst. rewrite Hy. reflexivity.
-      - destruct (field_is y' "imports") eqn:E.
-        + exfalso. cbn [length] in Hc1. assert (Hc0 : length (filter (fun p => field_is (fst p) "imports") fs) = 0%nat) by lia.
-          clear - Hin Hy Hc0. induction fs as [|[y2 v2] fs IH]; [destruct Hin|]. cbn [filter fst] in Hc0.
-          destruct Hin as [Q|Hin]; [inversion Q; subst; rewrite Hy in Hc0; discriminate|].
-          destruct (field_is y2 "imports"); [discriminate|apply IH; assumption].
-        + apply IH; assumption. }
-    rewrite Ef in Himp. cbn [option_map] in Himp. rewrite Ees in Himp. rewrite forallb_forall in Himp.
-    apply Forall_forall. intros x Hx. specialize (Himp x Hx). unfold no_struct. destruct (strip_ann x); try exact Logic.I. discriminate.
+      destruct (imports_slots l) as [sl|] eqn:Es; [|discriminate]. cbn [option_map] in Hap. inversion Hap; subst ctx'.
+      destruct (rd_imports_slots l sl [] Himp Es) as (ms & R1 & ->). exists (map imp_of (map IG ms)). split; [exact R1|apply Fresh]. }
+  destruct Goal as (im & Him & Hinv').
+  exists im, syms. split; [|split; [exact Hinv'|lia]].
+  apply lst_fold_find; [exact Hn|cbn; lia|cbn; lia|exact Him].
 Qed.
